@@ -137,14 +137,15 @@ class CplNumpy(_shim.SymNumpy):
         return _shim.SymNumpy.sum(self, a, *args, **k)
 
 
-def sym_float(x):
-    """replacement for the builtin float() inside analysed modules: numbers and numpy arrays go through the real float() (so that
-    float(length-1 array) raises TypeError exactly as the installed numpy does); symbolic values and scale tokens pass unchanged."""
-    if isinstance(x, (int, float, str, realnp.generic, realnp.ndarray)):
-        return float(x)
-    if isinstance(x, SR) and x.is_const():
+class sym_float(float):
+    """replacement for the builtin float inside analysed modules: numbers and numpy arrays go through the real float() (so that
+    float(length-1 array) raises TypeError exactly as the installed numpy does); symbolic values and scale tokens pass unchanged.
+    A float subclass so that `arr.astype(float)` inside the analysed module still works on real arrays (object dtype)."""
+
+    def __new__(cls, x=0.0):
+        if isinstance(x, (int, float, str, realnp.generic, realnp.ndarray)):
+            return float(x)
         return x
-    return x
 
 
 class SymArr(realnp.ndarray):
